@@ -189,6 +189,15 @@ Definition m_accepts (m : midline) (v : list val) : bool :=
 Definition mid_names_nodup_stmt : Prop :=
   forall m, m_names_ok m = true -> m_got m = Some (m_items m) /\ NoDup (m_names m).
 
+(** after a keyword call with all names that did not raise, get_params reports exactly the
+    given values (the C10 keyword round trip for Midline; premise of the "model afterwards has
+    exactly v" half of [C12_mid_given_params_scored_stmt]) *)
+Definition mid_set_get_keyword_stmt : Prop :=
+  forall m v, m_names_ok m = true -> length v = length (m_items m) ->
+    let r := m_set_params m [] (kw_of (m_names m) v) in
+    snd r <> None ->
+    option_map (map snd) (m_got (fst r)) = Some v /\ option_map (map fst) (m_got (fst r)) = Some (m_names m).
+
 (** * Theorem statements *)
 (** ** given_params_scored: all values valid => the result is the likelihood of the model
        after the set, and that model has exactly v (names and order of get_params) *)
